@@ -341,6 +341,13 @@ impl DistinguishedName {
 		}
 		self.entries.insert(ty, s.into());
 	}
+	/// Checks that all attribute types can be encoded.
+	pub(crate) fn check_encodable(&self) -> Result<(), Error> {
+		self.iter().try_for_each(|(ty, _)| match ty {
+			DnType::CustomDnType(oid) => check_oid(oid),
+			_ => Ok(()),
+		})
+	}
 	/// Iterate over the entries
 	pub fn iter(&self) -> DistinguishedNameIterator<'_> {
 		DistinguishedNameIterator {
@@ -537,6 +544,37 @@ impl KeyIdMethod {
 			let digest = digest::digest(digest_method, subject_public_key_info.as_ref());
 			digest.as_ref()[0..20].to_vec()
 		}
+	}
+}
+
+/// Checks that `s` can be written as an `IA5String`.
+pub(crate) fn check_ia5_string(s: &str) -> Result<(), Error> {
+	if s.is_ascii() {
+		Ok(())
+	} else {
+		Err(Error::InvalidAsn1String(InvalidAsn1String::Ia5String(
+			s.to_string(),
+		)))
+	}
+}
+
+/// Checks that `oid` can be written as an `OBJECT IDENTIFIER`: at least two components, the
+/// first one of 0, 1 or 2, the second one below 40 unless the first one is 2, and the two
+/// of them must fit the 64 bit sub-identifier they are combined into.
+pub(crate) fn check_oid(oid: &[u64]) -> Result<(), Error> {
+	match oid {
+		[0 | 1, second, ..] if *second < 40 => Ok(()),
+		[2, second, ..] if *second <= u64::MAX - 80 => Ok(()),
+		_ => Err(Error::InvalidObjectIdentifier),
+	}
+}
+
+/// Checks that `dt` can be written as a `UTCTime` or `GeneralizedTime`, which only reach from
+/// year 0 to year 9999 (in UTC).
+pub(crate) fn check_time(dt: OffsetDateTime) -> Result<(), Error> {
+	match OffsetDateTime::from_unix_timestamp(dt.unix_timestamp()) {
+		Ok(utc) if (0..=9999).contains(&utc.year()) => Ok(()),
+		_ => Err(Error::Time),
 	}
 }
 
